@@ -237,6 +237,28 @@ theorem nodup_insSorted (acc : List Nat) (i : Nat) (h : acc.Nodup) : (insSorted 
       simp only [List.mem_append, List.mem_filter, decide_eq_true_eq, List.mem_singleton] at ha hb
       omega
 
+theorem sorted_insSorted (acc : List Nat) (i : Nat) (h : acc.Pairwise (· < ·)) :
+    (insSorted acc i).Pairwise (· < ·) := by
+  unfold insSorted
+  by_cases hc : acc.contains i = true
+  · rw [if_pos hc]; exact h
+  · rw [if_neg hc]
+    rw [List.pairwise_append, List.pairwise_append]
+    refine ⟨⟨h.filter _, List.pairwise_singleton _ _, ?_⟩, h.filter _, ?_⟩
+    · intro a ha b hb
+      simp only [List.mem_filter, decide_eq_true_eq] at ha
+      simp only [List.mem_singleton] at hb
+      omega
+    · intro a ha b hb
+      simp only [List.mem_append, List.mem_filter, decide_eq_true_eq, List.mem_singleton] at ha hb
+      omega
+
+theorem foldl_insSorted_sorted (xs : List Nat) : ∀ acc : List Nat, acc.Pairwise (· < ·) →
+    (xs.foldl insSorted acc).Pairwise (· < ·) := by
+  induction xs with
+  | nil => intro acc h; exact h
+  | cons y ys ih => intro acc h; exact ih _ (sorted_insSorted acc y h)
+
 theorem foldl_insSorted (xs : List Nat) : ∀ acc : List Nat, acc.Nodup →
     (xs.foldl insSorted acc).Nodup ∧ ∀ x, x ∈ xs.foldl insSorted acc ↔ x ∈ acc ∨ x ∈ xs := by
   induction xs with
@@ -284,5 +306,8 @@ theorem todoTotal_of_empty : ∀ t : Todo, (∀ p ∈ t, p.2 = []) → todoTotal
 
 theorem mem_sortDedup (xs : List Nat) (x : Nat) : x ∈ sortDedup xs ↔ x ∈ xs := by
   rw [sortDedup_eq, (foldl_insSorted xs [] List.nodup_nil).2]; simp
+
+theorem sorted_sortDedup (xs : List Nat) : (sortDedup xs).Pairwise (· < ·) := by
+  rw [sortDedup_eq]; exact foldl_insSorted_sorted xs [] List.Pairwise.nil
 
 end DSymVerif.DS
